@@ -59,7 +59,10 @@ def serial_triang_upper(l, d, u, s):
     """Serial elimination of the upper diagonal, Stone's convention (pivots kept in diag).
     Accepts (n-1,),(n,),(n-1,),(n,) or batched (B, .) arrays of nodes."""
     l, d, u, s = [sym.to_obj(a) for a in (l, d, u, s)]
-    if d.ndim == 2:
+    # operands that do not depend on the batch arrive unbatched: broadcast to a common batch shape
+    batch = np.broadcast_shapes(l.shape[:-1], d.shape[:-1], u.shape[:-1], s.shape[:-1])
+    l, d, u, s = [np.broadcast_to(a, batch + a.shape[-1:]) for a in (l, d, u, s)]
+    if d.ndim >= 2:     # any number of leading batch dimensions (vmap over branches, over a batch, ...)
         outs = [serial_triang_upper(l[b], d[b], u[b], s[b]) for b in range(d.shape[0])]
         return [np.stack([o[k] for o in outs]) for k in range(3)]
     n = d.shape[0]
@@ -76,7 +79,9 @@ def serial_triang_upper(l, d, u, s):
 
 def serial_backsub_lower(s, l, d):
     s, l, d = [sym.to_obj(a) for a in (s, l, d)]
-    if d.ndim == 2:
+    batch = np.broadcast_shapes(s.shape[:-1], l.shape[:-1], d.shape[:-1])
+    s, l, d = [np.broadcast_to(a, batch + a.shape[-1:]) for a in (s, l, d)]
+    if d.ndim >= 2:
         outs = [serial_backsub_lower(s[b], l[b], d[b]) for b in range(d.shape[0])]
         return [np.stack([o[0] for o in outs])]
     n = d.shape[0]
